@@ -353,6 +353,26 @@ FSTRING_BAD = [("f'{'", "UnclosedLbrace"), ("f'{x'", "UnclosedLbrace"), ("f'}'",
 STRING_BAD = [("'abc", "unterminated-string"), ('"abc', "unterminated-string"), ("'''abc", "unterminated-string"), ("'abc\\", "unterminated-string"), ("'\\N{nope}'", "invalid-escape"), ("'\\x4'", "invalid-escape"),
               ("'\\xg0'", "invalid-escape"), ("'\\U00110000'", "invalid-escape"), ("'\\u12'", "invalid-escape"), ("'\\N{'", "invalid-escape"), ("'\\N'", "invalid-escape"), ("b'\\xg'", "invalid-escape"),
               ("'a' b'b'", "mix-bytes-text"), ("b'a' 'b'", "mix-bytes-text"), ("b'a' f'{x}'", "mix-bytes-text"), ("b'é'", "non-ascii-bytes"), ("rb'日'", "non-ascii-bytes"), ("b'''\né'''", "non-ascii-bytes")]
+def _non_ascii_bytes_forms():
+    """Every bytes prefix x quote style x position of one non-ASCII character (2-, 3- and 4-byte): at the start, in the
+    middle, at the end, directly after a backslash, after a complete escape, after an escaped backslash, after a
+    backslash-newline (triple-quoted), and in the second piece of an implicit concatenation."""
+    out = []
+    for prefix in ("b", "B", "rb", "Rb", "bR", "BR", "br"):
+        for q in ("'", '"', "'''", '"""'):
+            for ch in ("é", "€", "𝄞"):
+                bodies = [ch, "a" + ch + "z", "az" + ch, "\\" + ch, "a\\" + ch + "cd", "\\n" + ch, "\\\\" + ch, "\\x41" + ch]
+                if len(q) == 3:
+                    bodies += ["\\\n" + ch, "\n" + ch + "\n"]
+                for body in bodies:
+                    out.append((prefix + q + body + q, "non-ascii-bytes"))
+    for ch in ("é", "日"):
+        out.append(("b'a' b'%s'" % ch, "non-ascii-bytes"))
+        out.append(("b'a' b'\\%s'" % ch, "non-ascii-bytes"))
+    return out
+
+
+STRING_BAD += _non_ascii_bytes_forms()
 NUMBER_BAD = ["1__0", "1_", "0x", "0b2", "0o8", "012", "1_e5", "0_x1", "1.5e+", "0b", "0O", "1e", "0x_", "1_.5", "0o", "9e-", "0b12", "0xg", "0_7_", "1.2.3", "1e5e5", "0_", "1j2", "0x1.5", "1_j", "0b1_", "0o1__2", "00_1", "0127", "1e1_", "1__e1", ".5_", "1.e_5"]
 CONTEXTS = ["x = %s\n", "f(%s)\n", "if a:\n    y = [%s]\n", "class C:\n  def m(self): return (%s)\n", "é = (%s,)\n"]
 
